@@ -132,6 +132,32 @@ def step (st : St) : List String → St × String
     match parseNat? k, parseNat? fuel with
     | some k, some fuel => doEvolve st (st.cells k) fuel (some k)
     | _, _ => (st, "bad-op")
+  | ["evolvex", T, fuel, c, "new"] =>
+    -- round 5: the callback of the entry with counter `c` raises as soon as it is called (`loopX`); the history
+    -- advances by `stepOp` — the object of the theorems — on the fuel and callbacks of `raise_eq_fuel_out`,
+    -- whose run must be the `loopX` run (`same=`)
+    match parseRat? T, parseNat? fuel, parseNat? c with
+    | some T, some fuel, some c =>
+      if clockRel st.tbl then (st, "bad-op") else
+      let kids := kidsOf st.tbl
+      let rx := evolveUntilX kids (fun e => e.ctr == c) fuel st.h.s T
+      match rx.raisedAt with
+      | none => doEvolve st T fuel none
+      | some e =>
+        let k' := kidsExcept kids e
+        let j := (fired rx.run.trace).length
+        let run := evolveUntil k' j st.h.s T
+        let h' := stepOp k' j st.h (.evolve T)
+        let t0 := st.h.s.t
+        let out := s!"raised t={showRat h'.s.t} ctr={h'.s.ctr} trace=" ++
+          ";".intercalate (run.trace.map showEvent) ++ " queue=" ++
+          ";".intercalate (h'.s.queue.map showEntry) ++ " iv=" ++
+          ";".intercalate ((intervals t0 run.trace).map showIv) ++
+          s!" sum={showRat (sumDt run.trace)} lfc={showRat (lastFireClock t0 run.trace)}" ++
+          s!" same={decide (run = rx.run)}"
+        ({ st with h := h', ops := st.ops ++ [.evolve T], fuel := some j, fuelSame := false,
+                   rops := st.rops ++ [.evolve (.val T)] }, out)
+    | _, _, _ => (st, "bad-op")
   | ["byref"] =>
     -- the caller program once more through `runG .copy` (stored_by_value: = the history), and whether the
     -- by-reference scheduler `Bad.byReference` would have run a different history on it
